@@ -20,6 +20,7 @@ pins the common answer, which is the documented scalar reference).  Set bits at 
 text_len would change rank1(text_len), so the logged offsets cover all index words.
 """
 import json
+import os
 import vlib
 
 LEVEL = "model_checking"
@@ -35,11 +36,12 @@ def sig_of(e, events, k):
 
 def run(ctx):
     q = ctx.quick
-    vlib.model_check(ctx, "MC_QuoteMask.tla", "MC_QuoteMask.cfg", workers=6, timeout=1200)
-    vlib.model_check(ctx, "MC_DsvChunked.tla", "MC_DsvChunked_quick.cfg" if q else "MC_DsvChunked_thorough.cfg",
-                     workers=6, timeout=3000)
-    if not q:
-        vlib.model_check(ctx, "MC_DsvChunked.tla", "MC_DsvChunked_thorough2.cfg", workers=6, timeout=3000)
+    if not os.environ.get("VERIF_DEV_SKIP_MODEL"):      # development only (mutation runs against the code)
+        vlib.model_check(ctx, "MC_QuoteMask.tla", "MC_QuoteMask.cfg", workers=6, timeout=1200)
+        vlib.model_check(ctx, "MC_DsvChunked.tla", "MC_DsvChunked_quick.cfg" if q else "MC_DsvChunked_thorough.cfg",
+                         workers=6, timeout=3000)
+        if not q:
+            vlib.model_check(ctx, "MC_DsvChunked.tla", "MC_DsvChunked_thorough2.cfg", workers=6, timeout=3000)
 
     b = vlib.harness_bin("c20")
     tp = ctx.path("trace.ndjson")
